@@ -65,6 +65,7 @@ class ItemSpec:
     closures: dict = field(default_factory=dict)
     forloops: dict = field(default_factory=dict)
     structural: bool = False
+    static_lifetime: bool = False
     drop_attrs: list = field(default_factory=list)
     replace_self: str = ''
     src_line: int = 0
@@ -126,6 +127,8 @@ def parse_vc(text):
                 cur.iters[int(k)] = nm
             elif kw == 'structural':
                 cur.structural = True
+            elif kw == 'static-lifetime':
+                cur.static_lifetime = True
             elif kw == 'forloop':
                 k, nm = rest.split()
                 cur.forloops[int(k)] = nm
@@ -347,7 +350,7 @@ def weave_item(repo, spec):
     # insertion map: token index -> list of (order, text) inserted BEFORE that token
     ins_before = {}
     ins_after = {}
-    rules = {'R0': 0, 'R1': 0, 'R2': 0, 'R3': 0, 'R4': 0, 'R5': 0, 'R6': 0}
+    rules = {'R0': 0, 'R1': 0, 'R2': 0, 'R3': 0, 'R4': 0, 'R5': 0, 'R6': 0, 'R7': 0}
     r4c = {}
     obligations = []   # (label, props, kind)
 
@@ -381,6 +384,21 @@ def weave_item(repo, spec):
         else:
             add_before(s, '/*R3<*/pub /*>R3*/')
             rules['R3'] += 1
+
+    if spec.static_lifetime:
+        # R7: `const N: &T = ..`  =>  `const N: &'static T = ..` (the lifetime Rust itself elides to in const items)
+        if toks[kw].text not in ('const', 'static'):
+            raise Undecided('static-lifetime on non-const %s' % spec.name)
+        j = kw + 1
+        done7 = False
+        while j < n and toks[j].text != '=':
+            if toks[j].text == '&' and toks[j + 1].kind != 'lifetime':
+                add_after(j, "/*R7<*/'static /*>R7*/")
+                rules['R7'] += 1
+                done7 = True
+            j += 1
+        if not done7:
+            raise Undecided('static-lifetime: no elided reference lifetime in %s' % spec.name)
 
     if spec.structural:
         # R5: `#[derive(.., PartialEq, Eq, ..)]` => `#[derive(.., PartialEq, Eq, .., Structural)]`
@@ -616,7 +634,7 @@ def weave(repo, vc_text, incdir=None):
 # ---------------------------------------------------------------------------------------------
 # erasure check (independent of the weaver's bookkeeping: works on the woven text + a fresh extraction)
 
-_marker = re.compile(r'/\*(G<[HS]|>G|R0<|>R0|R1<|>R1|R2<|>R2|R2x<|>R2x|R3<|>R3|R3x<|>R3x|R4[a-ex]<|>R4[a-epx]|R4p<|R5<|>R5|R6<|>R6|ITEM<[^*]*|>ITEM)\*/')
+_marker = re.compile(r'/\*(G<[HS]|>G|R0<|>R0|R1<|>R1|R2<|>R2|R2x<|>R2x|R3<|>R3|R3x<|>R3x|R4[a-ex]<|>R4[a-epx]|R4p<|R5<|>R5|R6<|>R6|R7<|>R7|ITEM<[^*]*|>ITEM)\*/')
 
 
 def _check_ghost_form(seg, position, where):
@@ -696,7 +714,7 @@ def erase_check(repo, woven, items):
         kept = []
         pos = 0
         stack = None
-        counts = {'R0': 0, 'R1': 0, 'R2': 0, 'R3': 0, 'R4': 0, 'R5': 0, 'R6': 0, 'ghost_segments': 0}
+        counts = {'R0': 0, 'R1': 0, 'R2': 0, 'R3': 0, 'R4': 0, 'R5': 0, 'R6': 0, 'R7': 0, 'ghost_segments': 0}
         r4_pat, r4_name = [], []
         for m in _marker.finditer(region):
             tag = m.group(1)
@@ -747,6 +765,10 @@ def erase_check(repo, woven, items):
                     if [t.text for t in tokenize(seg)] != [',', 'Structural']:
                         raise Undecided('erasure: bad R5 segment %r in %s' % (seg, spec.name))
                     counts['R5'] += 1
+                elif otag == 'R7<' and tag == '>R7':
+                    if [t.text for t in tokenize(seg)] != ["'static"]:
+                        raise Undecided('erasure: bad R7 segment %r in %s' % (seg, spec.name))
+                    counts['R7'] += 1
                 elif otag == 'R6<' and tag == '>R6':
                     st = [t.text for t in tokenize(seg)]
                     if st in (['{'], ['}']):
